@@ -153,11 +153,14 @@ def attr_chain(expr):
 
 def is_xnp_call(call, name=None):
     """xnp.f(...), self.xnp.f(...), A.xnp.f(...): returns f or None"""
+    tagged = getattr(call, "_xnp_name", None)
+    if tagged is not None:
+        return tagged if name is None or tagged == name else None
     f = call.func
     if not isinstance(f, ast.Attribute):
         return None
     v = f.value
-    if (isinstance(v, ast.Name) and v.id == "xnp") or (isinstance(v, ast.Attribute) and v.attr == "xnp"):
+    if isinstance(v, ast.Attribute) and v.attr == "xnp":
         if name is None or f.attr == name:
             return f.attr
     return None
